@@ -28,7 +28,7 @@ SHARD_TIMEOUT = {"quick": 1800, "thorough": 9000}
 def gen_cases(seed, tier):
     rng = np.random.default_rng([seed, 7])
     n = 200 if tier == "quick" else 2000
-    devs = [1] if tier == "quick" else [1, 1, 1, 2, 4]
+    devs = [1, 1, 1, 2, 3] if tier == "quick" else [1, 1, 1, 2, 4]
     cases = []
     for i in range(n):
         u = rng.random()
